@@ -45,18 +45,18 @@ pub fn strategy() -> impl Strategy<Value = Case> {
         .prop_map(|(opts, h, term, term_frac, k)| Case { opts, h, term, term_frac, k })
 }
 
-struct Flags {
-    was_ongoing: bool,
-    keys_in_word: usize,
+pub struct Flags {
+    pub was_ongoing: bool,
+    pub keys_in_word: usize,
     /// phonetic: the raw characters of the word in progress (header-derived table)
-    raw: String,
+    pub raw: String,
 }
 
 fn nonempty_preedit(r: &Rendered) -> bool {
     r.pre.iter().any(|p| p.as_ref().map(|s| !s.is_empty()).unwrap_or(false)) || (r.lonely && !r.text.is_empty())
 }
 
-fn invariants(run: &Run, st: &mut Stats, fl: &mut Flags, s: &Step, case: &dyn Fn() -> Value) -> Result<(), Failure> {
+pub fn invariants(run: &Run, st: &mut Stats, fl: &mut Flags, s: &Step, case: &dyn Fn() -> Value) -> Result<(), Failure> {
     let ongoing = s.ctx.ongoing();
     // raw text model (phonetic only)
     match s.ev {
